@@ -135,11 +135,14 @@ def gen_row_items(rng, n, rich):
             w, ch = rng.choice(specials)
             if ch.strip():
                 items.append(("s", w, ch))
+                if rng.random() < 0.2:
+                    # the same special character again after a null filler word: two characters, not one doubled code
+                    items += [("n",), ("s", w, ch)]
         elif r < 0.91:
             w, ch = rng.choice(extended)
             items.append(("e", rng.choice("AEIOUaeiouc"), w, ch))
         elif r < 0.95:
-            items.append(("bs",))
+            items += [("bs",)] * rng.choice([1, 1, 2])      # also two backspaces in a row (sent single they are two, not one doubled)
         else:
             # a mid-row code takes a cell of its own; sometimes right after a space and sometimes erased again
             if rng.random() < 0.3:
@@ -177,6 +180,8 @@ def row_words(row, doubled):
                 out += [CMD["BS"]] * (2 if doubled else 1)
             elif it[0] == "mid":
                 out += [midrow(it[1])] * (2 if doubled else 1)
+            elif it[0] == "n":
+                out.append("8080")
     flush()
     return out
 
@@ -220,6 +225,8 @@ def mid_cell_erased_late(row):
 def gen_popon(rng, rich=True, ncaps=None, max_len=30):
     df = rng.random() < 0.5
     doubled = rng.random() < 0.5
+    mixed = rich and rng.random() < 0.15          # captions sent single and captions sent doubled in one stream
+    file_doubled = doubled
     offset = rng.choice([0, 0, 0, 1, 3600])
     caps = []
     frame = rng.choice([0, 30, 3600 * 30, 3600 * 30 + 17, 100])
@@ -229,6 +236,8 @@ def gen_popon(rng, rich=True, ncaps=None, max_len=30):
     n = ncaps if ncaps is not None else rng.randint(1, 6)
     events = []           # ('eoc', frame, cap_index) / ('edm', frame)
     for ci in range(n):
+        if mixed:
+            doubled = rng.random() < 0.5
         nrows = rng.choice([1, 1, 2, 2, 3, 4])
         start_row = rng.randint(1, 16 - nrows)
         rows = []
@@ -276,7 +285,7 @@ def gen_popon(rng, rich=True, ncaps=None, max_len=30):
         lines.append(timecode(frame, df) + "\t" + " ".join(words))
         lines.append("")
         frame += len(words)
-        caps.append({"rows": rows})
+        caps.append({"rows": rows, "doubled": doubled})
         if edm_mode == "separate":
             frame += rng.choice([30, 45, 60, 90, 150])
             events.append(("edm", frame))
@@ -286,7 +295,7 @@ def gen_popon(rng, rich=True, ncaps=None, max_len=30):
             frame += rng.choice([0, 1, 2, 3, 4, 5, 6, 8, 30, 90])
         else:
             frame += rng.choice([2, 4, 30, 60, 120])
-    return {"mode": "pop", "text": "\n".join(lines) + "\n", "caps": caps, "events": events, "df": df, "doubled": doubled, "offset": offset}
+    return {"mode": "pop", "text": "\n".join(lines) + "\n", "caps": caps, "events": events, "df": df, "doubled": file_doubled, "mixed": mixed, "offset": offset}
 
 
 def spec_popon_timing(p):
@@ -345,6 +354,7 @@ def spec_popon_screen(p):
 def wf_popon(p):
     """the well-formedness clauses of DESIGN §3 C05"""
     for cap in p["caps"]:
+        dbl = cap.get("doubled", p["doubled"])
         for row in cap["rows"]:
             if not nonblank(row_cells(row)):
                 return False
@@ -352,11 +362,11 @@ def wf_popon(p):
                 return False
             prev = None
             for it in row["items"]:
-                if not p["doubled"] and it[0] in ("s", "e") and prev is not None and prev[0] == it[0] and prev[-2] == it[-2]:
+                if not dbl and it[0] in ("s", "e") and prev is not None and prev[0] == it[0] and prev[-2] == it[-2]:
                     return False
                 # the same mid-row code twice in a row reads as one doubled code (the decoder ignores the copy), so in
                 # a stream sent single it does not stand for two cells
-                if not p["doubled"] and it[0] == "mid" and prev is not None and prev == it:
+                if not dbl and it[0] == "mid" and prev is not None and prev == it:
                     return False
                 prev = it
     return True
@@ -388,6 +398,8 @@ def rollup_rows(rng, lines, rows, frame, df, doubled, paint, depth, ru_once, nro
                     continue
                 if rng.random() < 0.5:
                     w, ch = rng.choice(specials); items[j] = ("s", w, ch)
+                    if rng.random() < 0.3 and len(items) <= 30:
+                        items[j:j + 1] = [("s", w, ch), ("n",), ("s", w, ch)]
                 else:
                     w, ch = rng.choice(extended); items[j] = ("e", rng.choice("AEIOUaeiou"), w, ch)
             text = "".join(ch for ch, _ in row_cells({"italic_pac": False, "items": items}))
